@@ -181,7 +181,7 @@ def run_case(ns, rec, chunks, plans, trailing_break, prelude=()):
                     mistyped.setdefault(ci, []).append((op, bytes(got) if isinstance(got, bytearray) else got))
                 if k == len(fields):
                     rec.count("surplus-reads-checked")
-                    if got not in (0, "", bytearray()):
+                    if not ((type(got) is int and got == 0) or (type(got) is str and got == "") or (isinstance(got, (bytes, bytearray)) and len(got) == 0)):
                         rec.violation("surplus-read-not-empty", "chunk %d fully read, surplus %r returned %r" % (ci, op, got), case)
                         return
                 else:
